@@ -899,6 +899,9 @@ COEFS = (1, -1, 2, -3, ["Frac", 3, 2], ["Frac", -2, 5])
 def _judge_cells(ctx, sub, spec):
     res = ctx.judge(sub, spec)
     cells = getattr(res, "nt_cells", None)
+    # a chunk spec holds many (metric, blade tuple) cells: "evaluations" counts cells
+    n_cells = len(spec.get("bs", spec.get("cs", spec.get("blades", [None]))))
+    ctx.evaluations += max(0, n_cells - 1)
     if cells is not None:
         # non-triviality is counted per cell (metric, blade tuple), not per chunk
         ctx.nontrivial.discard(spec_hash(sub, spec))
@@ -1190,6 +1193,9 @@ def generate(ctx):
 
 
 def finalize(m, cov):
+    cov["evaluations_unit"] = ("exhaustive tiers: one evaluation = one (metric, blade "
+                               "tuple) cell (cells are judged in chunks); random tiers: one "
+                               "generated case")
     incomplete = {}
     for name, judged in m["exhaustive"].items():
         want = int(name.rsplit("=", 1)[1].split()[0])
